@@ -285,8 +285,9 @@ def dfs(acc, depth, first):
 ROOTS = ["ord", "a-", "a--", "a--b", "a--1x", "--", "x--y--z", "1", "my order", "ORD--7-", "a---", "é"]
 step = st.tuples(st.integers(0, 400), st.sampled_from([0.1, 0.25, 0.5, 0.75, 0.999, 1 / 3]), st.sampled_from([1.0, 55.5, 100.0, 250.25, 7.7777777e-05]), st.sampled_from([1.0, 3.0, 7.5, 10.0, 20.0, 1000.0, 2.2222222e-05]))
 # magnitudes whose float repr uses exponent form are in the domain too ("all positive quantities and prices")
-walk = st.tuples(st.sampled_from(ROOTS), st.sampled_from([1.0, 100.0, 0.01, 99.99, 8.75e-05, 1.23456789e-05, 2.5e16]),
-                 st.sampled_from([1.0, 10.0, 2.5, 1000.0, 1.25e-05, 3.3333333e-05, 1.5e16]), st.lists(step, min_size=25, max_size=120))
+# ... and so are prices / quantities given as int objects (qty=10), which later meet fractional replacements and fills
+walk = st.tuples(st.sampled_from(ROOTS), st.sampled_from([1.0, 100.0, 0.01, 99.99, 8.75e-05, 1.23456789e-05, 2.5e16, 100, 7]),
+                 st.sampled_from([1.0, 10.0, 2.5, 1000.0, 1.25e-05, 3.3333333e-05, 1.5e16, 10, 1000]), st.lists(step, min_size=25, max_size=120))
 
 
 def run_walk(acc, root, price, qty, steps, maxlen):
